@@ -39,6 +39,7 @@ from lib import vlib
 from lib.vlib import cq_list, cq_nat, cq_str, cq_z
 from harness.universe import Universe, table_rows, export_plan
 from harness.orch import GateListener, run_observed, install
+from harness import routing_j
 
 LEVEL = "proof"
 logging.disable(logging.CRITICAL)
@@ -478,10 +479,16 @@ def one(spec: Dict[str, Any]) -> Dict[str, Any]:
         rec["status"] = "rejected"
         rec["exc"] = f"{type(e).__name__}: {str(e)[:120]}"
         return rec
+    plan = export_plan(sess, uni)
     o = run_observed(sess, timeout=20)
     rec["status"] = o["status"]
     rec["exc"] = str(o.get("exc"))[-160:] if o["status"] == "raised" else None
     rec["rows"] = cap.rows.get("D1")
+    # routing model input (Model/RoutingJ.v): begun steps in begin order + observed footprints; consumer step id
+    if o["status"] != "hang":
+        rec["route"] = routing_j.terms_x(spec, plan, o["begin_order"], {int(k): v for k, v in o["foot"].items()})
+        cs = [s["sid"] for s in plan["steps"] if s["kind"] == "FG" and s["group"] == "D1"]
+        rec["consumer_sid"] = cs[0] if len(cs) == 1 and cs[0] in o["begin_order"] else None
     return rec
 
 
@@ -558,12 +565,17 @@ def run(rep: vlib.Reporter, tier: str, seed: int) -> None:
     rep.proof(pr)
     pr2 = vlib.build_props("C05alg")          # associativity / order independence of inner-join trees, row-count bounds
     rep.proof(pr2)
-    pr.ok = pr.ok and pr2.ok
-    pr.failed_files += pr2.failed_files
+    pr3 = vlib.build_props("RoutingJ")        # registry lookups with the merge relation, JoinStep routing, find_leftmost terminates
+    rep.proof(pr3)
+    pr.ok = pr.ok and pr2.ok and pr3.ok
+    pr.failed_files += pr2.failed_files + pr3.failed_files
     rep.coverage["trusted_base"] += [
         "Spec/Rel.v (rel_join) is the relational specification and the oracle of record (evaluated by vm_compute)",
-        "the planner (run_link, resolve_trekked_links, invert_link, fill_tfs_by_joinstep) and JoinStep._merge_data are NOT modelled: "
-        "this check is end-to-end correspondence against the proved-consistent spec; merge kernels are C12's subject",
+        "Model/RoutingJ.v is a hand-written model of the run-time side of joins (registry lookups with cfw_merge_relation / "
+        "find_leftmost, the JoinStep branches of prepare_execute_step / prepare_tfs_and_joinstep, JoinStep.execute = rel_join on "
+        "the left object); tied per run: computed footprints = observed footprints, computed consumer table = received rows",
+        "the planner (run_link, resolve_trekked_links, invert_link, fill_tfs_by_joinstep) is NOT modelled for requests with Links: "
+        "plans are exported; the merge kernels (JoinStep._merge_data) are C12's subject",
         "generated consumer groups record the rows handed to their calculation; known-defect domains are Python predicates on "
         "the request (harness/c05.kf_domain); the recorded deviations arrow_join (PyArrow key-column handling), null_match_join "
         "(Pandas null keys) and flip_join (LEFT/RIGHT roles exchanged) are Gallina functions of the spec result defined in the "
@@ -606,6 +618,28 @@ def run(rep: vlib.Reporter, tier: str, seed: int) -> None:
         rep.finding(f"spec-order:{json.dumps(trees[k], sort_keys=True)}", "rel_join over an inner-link tree / a left star depends on the "
                     "application order (contradicts the associativity theorems)", {"kind": "spec", "spec": trees[k]})
         found = True
+    # T2 routing with joins: footprints of every run (all domains); consumer table where the request is outside every defect domain
+    rt_idx = [i for i, r in enumerate(recs) if r.get("route")]
+    bad_rt, info_rt = routing_j.check_routes("C05", "routex", [recs[i]["route"] for i in rt_idx])
+    seen_idx = [i for i in rt_idx if recs[i]["status"] == "ok" and recs[i]["rows"] is not None and recs[i].get("consumer_sid") is not None
+                and kf_domain(recs[i]["spec"]) is None]
+    bad_seen, info_seen = routing_j.check_seen("C05", "seenx", [(recs[i]["route"][0], recs[i]["consumer_sid"], cq_table(recs[i]["rows"]))
+                                                                 for i in seen_idx])
+    for k in bad_rt[:5]:
+        i = rt_idx[k]
+        rep.finding(f"routex:{json.dumps(recs[i]['spec'], sort_keys=True)}",
+                    "the objects the steps (feature-group, transform and join steps) worked on are not the ones Model/RoutingJ.v computes "
+                    "from the exported plan and the begin order", {"kind": "e2e", "spec": recs[i]["spec"], "status": recs[i]["status"]})
+        found = True
+    for k in bad_seen[:5]:
+        i = seen_idx[k]
+        rep.finding(f"seenx:{json.dumps(recs[i]['spec'], sort_keys=True)}",
+                    "the rows the consumer received are not the table Model/RoutingJ.v computes for its object (rel_join applied by the "
+                    "plan's join steps in begin order)", {"kind": "e2e", "spec": recs[i]["spec"], "rows": recs[i]["rows"]})
+        found = True
+    rep.add("routing_with_joins", {**info_rt, "runs": len(rt_idx), "footprint_disagreements": len(bad_rt),
+                                   "consumer_tables_compared": len(seen_idx), "consumer_table_disagreements": len(bad_seen),
+                                   "coq_eval_s_seen": info_seen.get("coq_eval_s")})
     counters: Dict[str, Dict[str, int]] = {}
     correct_by: Dict[str, Dict[str, int]] = {}
     for i, r in enumerate(recs):
